@@ -78,6 +78,10 @@ def run(cx, out):
         check_all(out, facts, cfg)
         check_tracker(out, facts)
         check_callgraph(out, facts)
+    # premises: the depth events reach the tracker through every provided wrapper (C08 R08.1 forwarding), and the in-place
+    # entry point performs the same descend/ascend as decode (C02 R02.5)
+    from . import shared
+    shared.premises(cx, out, {'c08': {'R08.1'}, 'c02': {'R02.5'}})
     from . import positive
     positive.check(cx, out, 'C11')
 
